@@ -14,48 +14,6 @@ set_option linter.unusedVariables false
 namespace D3
 namespace Simplex
 
-/-! ### hulls do not depend on the order of the points -/
-
-theorem lincomb_perm {l₁ l₂ : List V} (h : l₁.Perm l₂) : ∀ w : List ℝ, w.length = l₁.length →
-    (∀ x ∈ w, 0 ≤ x) → ∃ w' : List ℝ, w'.length = l₂.length ∧ (∀ x ∈ w', 0 ≤ x) ∧
-      w'.sum = w.sum ∧ lincomb w' l₂ = lincomb w l₁ := by
-  induction h with
-  | nil => intro w hl hw; exact ⟨w, hl, hw, rfl, rfl⟩
-  | cons p _ ih =>
-    intro w hl hw
-    match w, hl with
-    | w0 :: ws, hl =>
-      obtain ⟨w', hl', hw', hs', hx'⟩ := ih ws (by simpa using hl)
-        (fun y hy => hw y (List.mem_cons_of_mem _ hy))
-      refine ⟨w0 :: w', by simp [hl'], ?_, by simp [hs'], ?_⟩
-      · intro y hy
-        rcases List.mem_cons.mp hy with rfl | hy
-        · exact hw _ (by simp)
-        · exact hw' y hy
-      · simp only [lincomb, hx']
-  | swap p q l =>
-    intro w hl hw
-    match w, hl with
-    | w0 :: w1 :: ws, hl =>
-      refine ⟨w1 :: w0 :: ws, by simpa using hl, ?_, by simp only [List.sum_cons]; ring, ?_⟩
-      · intro y hy
-        simp only [List.mem_cons] at hy
-        rcases hy with rfl | rfl | hy
-        · exact hw _ (by simp)
-        · exact hw _ (by simp)
-        · exact hw y (by simp [hy])
-      · apply V3.ext' <;> simp [lincomb] <;> ring
-  | trans _ _ ih1 ih2 =>
-    intro w hl hw
-    obtain ⟨w1, hl1, hw1, hs1, hx1⟩ := ih1 w hl hw
-    obtain ⟨w2, hl2, hw2, hs2, hx2⟩ := ih2 w1 hl1 hw1
-    exact ⟨w2, hl2, hw2, by rw [hs2, hs1], by rw [hx2, hx1]⟩
-
-theorem hull_perm {l₁ l₂ : List V} (h : l₁.Perm l₂) : ∀ x, hullSet l₁ x → hullSet l₂ x := by
-  rintro x ⟨w, hl, hw, hs, rfl⟩
-  obtain ⟨w', hl', hw', hs', hx'⟩ := lincomb_perm h w hl hw
-  exact ⟨w', hl', hw', by rw [hs', hs], hx'⟩
-
 /-! ### first exit of a segment from the origin -/
 
 /-- `p i` are the barycentric coordinates of the origin (some `≤ 0`), `q i ≥ 0` those of a
@@ -399,10 +357,10 @@ theorem tetra_core (a b c d : V) (o0 o1 o2 o3 : Bool) (orient : Nat) (pa pb pc p
     (hzero : pa * a + pb * b + pc * c + pd * d = (⟨0, 0, 0⟩ : V))
     (h0 : o0 = true ↔ pd ≤ 0) (h1 : o1 = true ↔ pb ≤ 0) (h2 : o2 = true ↔ pc ≤ 0)
     (h3 : o3 = true ↔ pa ≤ 0)
-    (hf0 : ¬ V3.dot (triNormal a b c) (triNormal a b c) < EPS2)
-    (hf1 : ¬ V3.dot (triNormal a c d) (triNormal a c d) < EPS2)
-    (hf2 : ¬ V3.dot (triNormal a d b) (triNormal a d b) < EPS2)
-    (hf3 : ¬ V3.dot (triNormal b d c) (triNormal b d c) < EPS2)
+    (hf0 : TriRegular a b c)
+    (hf1 : TriRegular a c d)
+    (hf2 : TriRegular a d b)
+    (hf3 : TriRegular b d c)
     (hba : V3.dot a a < MAXF) (hbb : V3.dot b b < MAXF) :
     ∃ r, closestPointTetrahedron a b c d = .ok r ∧ IsMinNorm (hullSet [a, b, c, d]) r.pt ∧
       hullSet (selectBits r.set [a, b, c, d]) r.pt ∧
@@ -529,10 +487,10 @@ theorem closestPointTetrahedron_spec_pos (a b c d : V)
       (-EPS ≤ V3.dot a (V3.cross (c - a) (d - a)) → 0 ≤ V3.dot a (V3.cross (c - a) (d - a))) ∧
       (-EPS ≤ V3.dot a (V3.cross (d - a) (b - a)) → 0 ≤ V3.dot a (V3.cross (d - a) (b - a))) ∧
       (-EPS ≤ V3.dot b (V3.cross (d - b) (c - b)) → 0 ≤ V3.dot b (V3.cross (d - b) (c - b))))
-    (hfaces : ¬ V3.dot (triNormal a b c) (triNormal a b c) < EPS2 ∧
-      ¬ V3.dot (triNormal a c d) (triNormal a c d) < EPS2 ∧
-      ¬ V3.dot (triNormal a d b) (triNormal a d b) < EPS2 ∧
-      ¬ V3.dot (triNormal b d c) (triNormal b d c) < EPS2)
+    (hfaces : TriRegular a b c ∧
+      TriRegular a c d ∧
+      TriRegular a d b ∧
+      TriRegular b d c)
     (hbound : V3.dot a a < MAXF ∧ V3.dot b b < MAXF) :
     ∃ r, closestPointTetrahedron a b c d = .ok r ∧ IsMinNorm (hullSet [a, b, c, d]) r.pt ∧
       hullSet (selectBits r.set [a, b, c, d]) r.pt := by
@@ -569,10 +527,10 @@ theorem closestPointTetrahedron_spec_neg (a b c d : V)
       (V3.dot a (V3.cross (c - a) (d - a)) ≤ EPS → V3.dot a (V3.cross (c - a) (d - a)) ≤ 0) ∧
       (V3.dot a (V3.cross (d - a) (b - a)) ≤ EPS → V3.dot a (V3.cross (d - a) (b - a)) ≤ 0) ∧
       (V3.dot b (V3.cross (d - b) (c - b)) ≤ EPS → V3.dot b (V3.cross (d - b) (c - b)) ≤ 0))
-    (hfaces : ¬ V3.dot (triNormal a b c) (triNormal a b c) < EPS2 ∧
-      ¬ V3.dot (triNormal a c d) (triNormal a c d) < EPS2 ∧
-      ¬ V3.dot (triNormal a d b) (triNormal a d b) < EPS2 ∧
-      ¬ V3.dot (triNormal b d c) (triNormal b d c) < EPS2)
+    (hfaces : TriRegular a b c ∧
+      TriRegular a c d ∧
+      TriRegular a d b ∧
+      TriRegular b d c)
     (hbound : V3.dot a a < MAXF ∧ V3.dot b b < MAXF) :
     ∃ r, closestPointTetrahedron a b c d = .ok r ∧ IsMinNorm (hullSet [a, b, c, d]) r.pt ∧
       hullSet (selectBits r.set [a, b, c, d]) r.pt := by
